@@ -11,9 +11,11 @@ and 3-D); the `glam_*` theorems join the two for every basis size.
 import FDAProofs.Lemmas.PSplines
 import FDAProofs.Lemmas.GLAM
 import FDAProofs.Lemmas.Bases
+import FDAProofs.Lemmas.Marsden
 
 namespace C05
-open FDA FDA.BSpline FDA.PSpline FDA.GLAM Finset
+open FDA FDA.BSpline FDA.PSpline FDA.GLAM Finset Polynomial
+open scoped fwdDiff
 
 /-! ## Consequences of the normal equations (any dimension: `B` may be a Kronecker basis) -/
 
@@ -620,6 +622,255 @@ example : ∃ c : ℕ → ℚ, ∀ i < 3, fitted (2 + 2) (basisOn 0 2 2 2 (fun i
     (by norm_num) (by norm_num) (by norm_num)
     (by intro i hi; rcases (by omega : i = 0 ∨ i = 1 ∨ i = 2) with rfl | rfl | rfl <;> norm_num)
   exact ⟨c, h⟩
+
+/-! ## Polynomial reproduction at full strength: every order ≤ degree + 1, 1-D and 2-D tensor -/
+
+/-- Polynomial reproduction in one dimension at full strength: EVERY penalty order `≤ degree + 1`
+(every degree `≥ 1`, every basis size, every grid inside the domain, every `λ`, every weights):
+a polynomial `q` of degree below the penalty order is the spline of some coefficient vector `c`
+which solves the penalised normal equations for the responses `q(x_i)`. -/
+theorem reproduces_polynomials (dmin dmax : ℚ) (nseg p ord n : ℕ) (x w : ℕ → ℚ) (lam : ℚ) (q : ℚ[X])
+    (hd : dmin < dmax) (hseg : 0 < nseg) (hp1 : 1 ≤ p) (hq : q.natDegree < ord) (hop : ord ≤ p + 1)
+    (hx : ∀ i < n, dmin ≤ x i ∧ x i ≤ dmax) :
+    ∃ c : ℕ → ℚ,
+      (∀ i < n, fitted (nseg + p) (basisOn dmin dmax nseg p x) c i = q.eval (x i)) ∧
+      IsFit (nseg + p) (normalMat n w (basisOn dmin dmax nseg p x) (pen1 (nseg + p) ord lam))
+        (bwy n w (basisOn dmin dmax nseg p x) (fun i => q.eval (x i))) c := by
+  have hp : p < nseg + p := by omega
+  obtain ⟨c, hc0, hcs⟩ := poly_is_spline dmin dmax (nseg + p) p hp1 hp hd q ord hq hop
+  have hfitted : ∀ i < n, fitted (nseg + p) (basisOn dmin dmax nseg p x) c i = q.eval (x i) := by
+    intro i hi
+    rw [← hcs (x i) (hx i hi).1 (hx i hi).2]
+    unfold fitted basisOn
+    apply Finset.sum_congr rfl; intro k _; ring
+  refine ⟨c, hfitted, ?_⟩
+  have hD : ∀ r < (nseg + p) - ord, ∑ l ∈ range (nseg + p), diffMat ord r l * c l = 0 := by
+    intro r hr
+    have := sum_mul_diffMat (nseg + p) c ord r (by omega)
+    rw [hc0 r] at this
+    rw [← this]
+    apply Finset.sum_congr rfl; intro l _; ring
+  have hfit := reproduces_null_space (nseg + p) n w (basisOn dmin dmax nseg p x) (pen1 (nseg + p) ord lam) c
+    (fun k _ => difference_null_space (nseg + p) ord lam c hD k)
+  intro k hk
+  rw [hfit k hk]
+  unfold bwy
+  apply Finset.sum_congr rfl; intro i hi
+  rw [hfitted i (mem_range.mp hi)]
+
+/-- … hence any solution of the normal equations returns `q(x_i)` wherever `w_i > 0`, whatever the
+penalty — every order `≤ degree + 1`. -/
+theorem polynomials_reproduced_on_support (dmin dmax : ℚ) (nseg p ord n : ℕ) (x w : ℕ → ℚ) (lam : ℚ)
+    (q : ℚ[X]) (hd : dmin < dmax) (hseg : 0 < nseg) (hp1 : 1 ≤ p) (hq : q.natDegree < ord)
+    (hop : ord ≤ p + 1) (hx : ∀ i < n, dmin ≤ x i ∧ x i ≤ dmax) (hw : ∀ i < n, 0 ≤ w i) (hl : 0 ≤ lam)
+    (β : ℕ → ℚ)
+    (hβ : IsFit (nseg + p) (normalMat n w (basisOn dmin dmax nseg p x) (pen1 (nseg + p) ord lam))
+      (bwy n w (basisOn dmin dmax nseg p x) (fun i => q.eval (x i))) β)
+    (i : ℕ) (hi : i < n) (hwi : 0 < w i) :
+    fitted (nseg + p) (basisOn dmin dmax nseg p x) β i = q.eval (x i) := by
+  obtain ⟨c, hc1, hc2⟩ := reproduces_polynomials dmin dmax nseg p ord n x w lam q hd hseg hp1 hq hop hx
+  rw [← hc1 i hi]
+  exact yhat_unique_on_support (nseg + p) n w _ _ _ β c hw
+    (fun v => quadForm_pen1_nonneg (nseg + p) ord lam hl v) hβ hc2 i hi hwi
+
+/-- Degree 4, order 5 (beyond the property's orders), cubic polynomial. -/
+example : ∃ c : ℕ → ℚ, ∀ i < 3, fitted (2 + 4) (basisOn 0 2 2 4 (fun i => (i : ℚ))) c i
+    = (X ^ 4 - C 2 * X + 1 : ℚ[X]).eval ((i : ℚ)) := by
+  obtain ⟨c, h, _⟩ := reproduces_polynomials 0 2 2 4 5 3 (fun i => (i : ℚ)) (fun _ => 1) 7
+    (X ^ 4 - C 2 * X + 1 : ℚ[X]) (by norm_num) (by norm_num) (by norm_num)
+    (by
+      have : (X ^ 4 - C 2 * X + 1 : ℚ[X]).natDegree ≤ 4 := by
+        refine le_trans (natDegree_add_le _ _) (max_le ?_ (by simp))
+        refine le_trans (natDegree_sub_le _ _) (max_le (by simp) ?_)
+        exact le_trans (natDegree_C_mul_le _ _) (by simp)
+      omega)
+    (by norm_num)
+    (by intro i hi; rcases (by omega : i = 0 ∨ i = 1 ∨ i = 2) with rfl | rfl | rfl <;> norm_num)
+  exact ⟨c, h⟩
+/-- A coefficient sequence annihilated by the `ord`-th difference is in the null space of `DᵀD`. -/
+theorem penMat_null (m ord : ℕ) (c : ℕ → ℚ) (hc : ∀ i, (Δ_[1]^[ord] c) i = 0) (k : ℕ) :
+    ∑ l ∈ range m, penMat m ord k l * c l = 0 := by
+  have hD : ∀ r < m - ord, ∑ l ∈ range m, diffMat ord r l * c l = 0 := by
+    intro r hr
+    have := sum_mul_diffMat m c ord r (by omega)
+    rw [hc r] at this
+    rw [← this]; apply Finset.sum_congr rfl; intro l _; ring
+  have := difference_null_space m ord 1 c hD k
+  simpa [pen1] using this
+
+/-- Tensor-product polynomial reproduction in two dimensions: responses
+`y(i₁,i₂) = Σ_{t<T} q₁ₜ(x₁[i₁])·q₂ₜ(x₂[i₂])` with every factor of degree below the penalty order
+(`order ≤ degree_k + 1` in both directions) are the Kronecker spline of a coefficient vector that
+solves the explicit tensor-product normal equations for EVERY pair of penalties and EVERY weights —
+all basis sizes, all grids inside the domains, every order. -/
+theorem reproduces_tensor_polynomials_2d (a1 b1 a2 b2 : ℚ) (s1 p1 s2 p2 ord n1 n2 : ℕ) (x1 x2 w : ℕ → ℚ)
+    (la lb : ℚ) (T : ℕ) (q1 q2 : ℕ → ℚ[X])
+    (hd1 : a1 < b1) (hd2 : a2 < b2) (hs1 : 0 < s1) (hs2 : 0 < s2) (hp1 : 1 ≤ p1) (hp2 : 1 ≤ p2)
+    (hq1 : ∀ t < T, (q1 t).natDegree < ord) (hq2 : ∀ t < T, (q2 t).natDegree < ord)
+    (ho1 : ord ≤ p1 + 1) (ho2 : ord ≤ p2 + 1) (hn2 : 0 < n2)
+    (hx1 : ∀ i < n1, a1 ≤ x1 i ∧ x1 i ≤ b1) (hx2 : ∀ i < n2, a2 ≤ x2 i ∧ x2 i ≤ b2) :
+    ∃ c : ℕ → ℚ,
+      (∀ i1 < n1, ∀ i2 < n2,
+        fitted ((s1 + p1) * (s2 + p2)) (kronB (s2 + p2) n2 (basisOn a1 b1 s1 p1 x1) (basisOn a2 b2 s2 p2 x2)) c
+            (i1 * n2 + i2)
+          = ∑ t ∈ range T, (q1 t).eval (x1 i1) * (q2 t).eval (x2 i2)) ∧
+      IsFit ((s1 + p1) * (s2 + p2))
+        (normalMat (n1 * n2) w (kronB (s2 + p2) n2 (basisOn a1 b1 s1 p1 x1) (basisOn a2 b2 s2 p2 x2))
+          (penSpec2 (s2 + p2) la lb (penMat (s1 + p1) ord) (penMat (s2 + p2) ord)))
+        (bwy (n1 * n2) w (kronB (s2 + p2) n2 (basisOn a1 b1 s1 p1 x1) (basisOn a2 b2 s2 p2 x2))
+          (fun I => ∑ t ∈ range T, (q1 t).eval (x1 (I / n2)) * (q2 t).eval (x2 (I % n2)))) c := by
+  set m1 := s1 + p1 with hm1
+  set m2 := s2 + p2 with hm2
+  set B1 := basisOn a1 b1 s1 p1 x1 with hB1
+  set B2 := basisOn a2 b2 s2 p2 x2 with hB2
+  set P := penSpec2 m2 la lb (penMat m1 ord) (penMat m2 ord) with hP
+  have hm2pos : 0 < m2 := by omega
+  -- coefficient vector in the null space of the penalty with the right fitted values, by induction on T
+  have key : ∀ T' ≤ T, ∃ c : ℕ → ℚ,
+      (∀ K < m1 * m2, ∑ L ∈ range (m1 * m2), P K L * c L = 0) ∧
+      (∀ i1 < n1, ∀ i2 < n2, fitted (m1 * m2) (kronB m2 n2 B1 B2) c (i1 * n2 + i2)
+          = ∑ t ∈ range T', (q1 t).eval (x1 i1) * (q2 t).eval (x2 i2)) := by
+    intro T'
+    induction T' with
+    | zero =>
+      intro _
+      exact ⟨fun _ => 0, fun K _ => by simp, fun i1 _ i2 _ => by simp [fitted]⟩
+    | succ T' ih =>
+      intro hT
+      obtain ⟨c, hc1, hc2⟩ := ih (by omega)
+      obtain ⟨c1, h10, h1s⟩ := poly_is_spline a1 b1 m1 p1 hp1 (by omega) hd1 (q1 T') ord (hq1 T' (by omega)) ho1
+      obtain ⟨c2, h20, h2s⟩ := poly_is_spline a2 b2 m2 p2 hp2 (by omega) hd2 (q2 T') ord (hq2 T' (by omega)) ho2
+      refine ⟨fun K => c K + kronVec m2 c1 c2 K, ?_, ?_⟩
+      · intro K hK
+        simp_rw [mul_add]
+        rw [Finset.sum_add_distrib, hc1 K hK,
+          penSpec2_null m1 m2 la lb _ _ c1 c2 (fun k _ => penMat_null m1 ord c1 h10 k)
+            (fun k _ => penMat_null m2 ord c2 h20 k) hm2pos K hK, add_zero]
+      · intro i1 hi1 i2 hi2
+        have hadd : fitted (m1 * m2) (kronB m2 n2 B1 B2) (fun K => c K + kronVec m2 c1 c2 K) (i1 * n2 + i2)
+            = fitted (m1 * m2) (kronB m2 n2 B1 B2) c (i1 * n2 + i2)
+              + fitted (m1 * m2) (kronB m2 n2 B1 B2) (kronVec m2 c1 c2) (i1 * n2 + i2) := by
+          unfold fitted; rw [← Finset.sum_add_distrib]; apply Finset.sum_congr rfl; intro k _; ring
+        rw [hadd, hc2 i1 hi1 i2 hi2, kron_fitted m1 m2 n2 B1 B2 c1 c2 i1 i2 hi2, Finset.sum_range_succ]
+        congr 1
+        have f1 : fitted m1 B1 c1 i1 = (q1 T').eval (x1 i1) := by
+          rw [← h1s (x1 i1) (hx1 i1 hi1).1 (hx1 i1 hi1).2]
+          unfold fitted; rw [hB1]; unfold basisOn
+          apply Finset.sum_congr rfl; intro k _; ring
+        have f2 : fitted m2 B2 c2 i2 = (q2 T').eval (x2 i2) := by
+          rw [← h2s (x2 i2) (hx2 i2 hi2).1 (hx2 i2 hi2).2]
+          unfold fitted; rw [hB2]; unfold basisOn
+          apply Finset.sum_congr rfl; intro k _; ring
+        rw [f1, f2]
+  obtain ⟨c, hc1, hc2⟩ := key T (le_refl T)
+  refine ⟨c, hc2, ?_⟩
+  have hfit := reproduces_null_space (m1 * m2) (n1 * n2) w (kronB m2 n2 B1 B2) P c hc1
+  intro K hK
+  rw [hfit K hK]
+  unfold bwy
+  rw [sum_range_mul, sum_range_mul]
+  apply Finset.sum_congr rfl; intro i1 hi1
+  apply Finset.sum_congr rfl; intro i2 hi2
+  obtain ⟨e1, e2⟩ := divmod_lin n2 i1 i2 (mem_range.mp hi2)
+  rw [hc2 i1 (mem_range.mp hi1) i2 (mem_range.mp hi2)]
+  simp only [e1, e2]
+
+/-- Degrees 2 × 3, order 3, the tensor polynomial `x₁²·x₂ + 1·x₂²` on a 2 × 2 grid. -/
+example : ∃ c : ℕ → ℚ, ∀ i1 < 2, ∀ i2 < 2,
+    fitted ((1 + 2) * (2 + 3)) (kronB (2 + 3) 2 (basisOn 0 1 1 2 (fun i => (i : ℚ))) (basisOn 0 2 2 3 (fun i => (i : ℚ)))) c
+        (i1 * 2 + i2)
+      = ∑ t ∈ range 2, ((fun t => if t = 0 then (X ^ 2 : ℚ[X]) else 1) t).eval ((i1 : ℚ))
+          * ((fun t => if t = 0 then (X : ℚ[X]) else X ^ 2) t).eval ((i2 : ℚ)) := by
+  obtain ⟨c, h, _⟩ := reproduces_tensor_polynomials_2d 0 1 0 2 1 2 2 3 3 2 2 (fun i => (i : ℚ)) (fun i => (i : ℚ))
+    (fun _ => 1) 1 4 2 (fun t => if t = 0 then (X ^ 2 : ℚ[X]) else 1) (fun t => if t = 0 then (X : ℚ[X]) else X ^ 2)
+    (by norm_num) (by norm_num) (by norm_num) (by norm_num) (by norm_num) (by norm_num)
+    (by intro t ht; rcases (by omega : t = 0 ∨ t = 1) with rfl | rfl <;> simp)
+    (by intro t ht; rcases (by omega : t = 0 ∨ t = 1) with rfl | rfl <;> simp)
+    (by norm_num) (by norm_num) (by norm_num)
+    (by intro i hi; rcases (by omega : i = 0 ∨ i = 1) with rfl | rfl <;> norm_num)
+    (by intro i hi; rcases (by omega : i = 0 ∨ i = 1) with rfl | rfl <;> norm_num)
+  exact ⟨c, h⟩
+
+/-! ## Hat-matrix trace, end-to-end leverage bounds of the array arithmetic -/
+
+/-- Trace of the hat matrix: `Σ_i h_i = tr(A⁻¹ B W Bᵀ)`. -/
+theorem hat_trace (nb n : ℕ) (w : ℕ → ℚ) (B X : ℕ → ℕ → ℚ) :
+    ∑ i ∈ range n, hatDiag nb w B X i = ∑ k ∈ range nb, ∑ l ∈ range nb, X k l * bwb n w B l k := by
+  unfold hatDiag bwb
+  simp_rw [Finset.sum_mul, Finset.mul_sum]
+  rw [Finset.sum_comm]
+  apply Finset.sum_congr rfl; intro k _
+  rw [Finset.sum_comm]
+  apply Finset.sum_congr rfl; intro l _
+  apply Finset.sum_congr rfl; intro i _
+  ring
+
+/-- Effective dimension: with the inverse `X` of `A = B W Bᵀ + P`, `Σ_i h_i = nb − tr(A⁻¹ P)`. -/
+theorem hat_trace_eq (nb n : ℕ) (w : ℕ → ℚ) (B P X : ℕ → ℕ → ℚ)
+    (hX : IsInverse nb (normalMat n w B P) X) :
+    ∑ i ∈ range n, hatDiag nb w B X i = (nb : ℚ) - ∑ k ∈ range nb, ∑ l ∈ range nb, X k l * P l k := by
+  have hXA := isInverse_comm nb _ X hX
+  rw [hat_trace]
+  have h1 : ∀ k ∈ range nb, ∑ l ∈ range nb, X k l * bwb n w B l k
+      = 1 - ∑ l ∈ range nb, X k l * P l k := by
+    intro k hk
+    have := hXA k (mem_range.mp hk) k (mem_range.mp hk)
+    simp only [if_true] at this
+    unfold normalMat at this
+    simp_rw [mul_add] at this
+    rw [Finset.sum_add_distrib] at this
+    linarith
+  rw [Finset.sum_congr rfl h1, Finset.sum_sub_distrib]
+  simp
+
+/-- End to end, 2-D: the hat diagonal returned by the (repaired) array arithmetic lies in `[0, 1]`
+whenever `X` (flat) inverts the matrix the code assembles (`bwb_mat + penalty_mat`), the weights are
+non-negative and the penalties are non-negative — all basis sizes, all grid sizes, every order. -/
+theorem glam_hat_bounds_2d (d1 d2 : Dim) (X W : Array ℚ) (ord : ℕ) (la lb : ℚ)
+    (hn1 : 0 < d1.n) (hn2 : 0 < d2.n) (hm1 : 0 < d1.m) (hm2 : 0 < d2.m)
+    (hw : ∀ i < d1.n * d2.n, 0 ≤ rd W i) (ha : 0 ≤ la) (hb : 0 ≤ lb)
+    (hX : IsInverse (d1.m * d2.m)
+      (fun K L => rd (glamBWB [d1, d2] W) (K * (d1.m * d2.m) + L)
+        + penaltyND [la, lb] [(d1.m, penMat d1.m ord), (d2.m, penMat d2.m ord)] K L)
+      (fun K L => rd X (K * (d1.m * d2.m) + L)))
+    (i1 i2 : ℕ) (hi1 : i1 < d1.n) (hi2 : i2 < d2.n) :
+    0 ≤ rd (glamHat [d1, d2] X W) (i1 * d2.n + i2) ∧ rd (glamHat [d1, d2] X W) (i1 * d2.n + i2) ≤ 1 := by
+  rw [glam_hat_2d d1 d2 X W hm1 hm2 i1 i2 hi1 hi2]
+  have hA : ∀ K < d1.m * d2.m, ∀ L < d1.m * d2.m,
+      rd (glamBWB [d1, d2] W) (K * (d1.m * d2.m) + L)
+        + penaltyND [la, lb] [(d1.m, penMat d1.m ord), (d2.m, penMat d2.m ord)] K L
+      = normalMat (d1.n * d2.n) (rd W) (kronB d2.m d2.n d1.B d2.B)
+          (penSpec2 d2.m la lb (penMat d1.m ord) (penMat d2.m ord)) K L := by
+    intro K hK L hL
+    have hk1 : K / d2.m < d1.m := Nat.div_lt_of_lt_mul (by rw [Nat.mul_comm]; exact hK)
+    have hl1 : L / d2.m < d1.m := Nat.div_lt_of_lt_mul (by rw [Nat.mul_comm]; exact hL)
+    have eK : K = K / d2.m * d2.m + K % d2.m := by rw [Nat.mul_comm]; exact (Nat.div_add_mod K d2.m).symm
+    have eL : L = L / d2.m * d2.m + L % d2.m := by rw [Nat.mul_comm]; exact (Nat.div_add_mod L d2.m).symm
+    have := normal_equations_2d d1 d2 W ord la lb hn1 hn2 (K / d2.m) (L / d2.m) (K % d2.m) (L % d2.m)
+      hk1 hl1 (Nat.mod_lt _ hm2) (Nat.mod_lt _ hm2)
+    rw [← eK, ← eL] at this
+    exact this
+  have hX' : IsInverse (d1.m * d2.m)
+      (normalMat (d1.n * d2.n) (rd W) (kronB d2.m d2.n d1.B d2.B)
+        (penSpec2 d2.m la lb (penMat d1.m ord) (penMat d2.m ord)))
+      (fun K L => rd X (K * (d1.m * d2.m) + L)) := by
+    intro k hk l hl
+    rw [← hX k hk l hl]
+    apply Finset.sum_congr rfl; intro m hm
+    simp only []
+    rw [hA k hk m (mem_range.mp hm)]
+  exact hat_bounds (d1.m * d2.m) (d1.n * d2.n) (rd W) _ _ _ hw
+    (fun v => tensor_penalty_psd_2d d1.m d2.m ord la lb ha hb v) hX' (i1 * d2.n + i2)
+    (lt_mul_of' d1.n d2.n i1 i2 hi1 hi2)
+
+example : ∑ i ∈ range 1, hatDiag 1 (fun _ => 1) (fun _ _ => 1) (fun _ _ => 1 / 3) i
+    = ((1 : ℕ) : ℚ) - ∑ k ∈ range 1, ∑ l ∈ range 1, (fun _ _ => (1 : ℚ) / 3) k l * (fun _ _ => (2 : ℚ)) l k :=
+  hat_trace_eq 1 1 (fun _ => 1) (fun _ _ => 1) (fun _ _ => 2) (fun _ _ => 1 / 3)
+    (by
+      intro k hk l hl
+      obtain rfl : k = 0 := by omega
+      obtain rfl : l = 0 := by omega
+      simp [normalMat, bwb]; norm_num)
 
 /-! ## Counterexamples -/
 
